@@ -177,6 +177,18 @@ CaseOK(c) ==
                            [] fn = "ln_1p" -> [k \in 0..3 |-> IF k = 0 THEN Q0 ELSE IF k = 1 THEN Q1 ELSE IF k = 2 THEN QInt(-1) ELSE QInt(2)]
                            [] OTHER -> TowerAt0(fn)
                IN  SameParts(JetX(ty, res), AQ!ChainA(JetQ(ty, xx), tw), FALSE)
+          [] c.k = "saturate" ->  \* finite limits where exp overflows: tanh(+-Huge) = +-1, exp_m1(-Huge) = -1, all derivatives 0
+               LET xq == GenQ(ty, IF c.sign > 0 THEN Huge ELSE QNeg(Huge), 3)
+                   res == BX!ElemB(ty, c.fn, ToX(ty, xq))
+                   tw == [k \in 0..3 |-> IF k = 0 THEN (IF c.fn = "tanh" THEN QInt(c.sign) ELSE QInt(-1)) ELSE Q0]
+               IN  SameParts(JetX(ty, res), AQ!ChainA(JetQ(ty, xq), tw), FALSE)
+          [] c.k = "saturate4" -> \* the same on the nested type Dual2<Dual2> with generic parts at both levels
+               LET h == IF c.sign > 0 THEN Huge ELSE QNeg(Huge)
+                   inner(r, k) == [re |-> XQ(r), v1 |-> XQ(GV(k)), v2 |-> XQ(GV(k + 1))]
+                   x4 == [re |-> inner(h, 1), v1 |-> inner(QInt(2), 3), v2 |-> inner(QInt(-3), 5)]
+                   res == NB!ElemB(NB!TDual2, "tanh", x4)
+                   isC(v, r) == v.re = XQ(r) /\ v.v1 = X0 /\ v.v2 = X0
+               IN  isC(res.re, QInt(c.sign)) /\ isC(res.v1, Q0) /\ isC(res.v2, Q0)
           [] c.k = "zero4" ->     \* fourth order: Dual2<Dual2> seeded on one variable at 0
                LET seedIn(r, e) == [re |-> XQ(r), v1 |-> XQ(e), v2 |-> X0]
                    x4 == [re |-> seedIn(Q0, Q1), v1 |-> seedIn(Q1, Q0), v2 |-> seedIn(Q0, Q0)]
@@ -198,6 +210,9 @@ Cases ==
     \cup {[k |-> "atan2", ty |-> ty, axis |-> ax] : ty \in Types, ax \in {"+y", "-y", "+x", "-x"}}
     \cup {[k |-> "zero", ty |-> ty, fn |-> fn] :
              ty \in Types, fn \in {"sph_j0", "sph_j1", "sph_j2", "exp_m1", "ln_1p", "bessel_j0", "bessel_j2"}}
+    \cup {[k |-> "saturate", ty |-> ty, fn |-> "tanh", sign |-> sg] : ty \in Types, sg \in {-1, 1}}
+    \cup {[k |-> "saturate", ty |-> ty, fn |-> "exp_m1", sign |-> -1] : ty \in Types}
+    \cup {[k |-> "saturate4", ty |-> BX!TDual2, fn |-> "tanh", sign |-> sg] : sg \in {-1, 1}}
     \cup {[k |-> "zero4", ty |-> BX!TDual2, fn |-> fn] :
              fn \in {"sph_j0", "sph_j1", "sph_j2", "bessel_j0"}}
     \* (bessel_j2 at fourth order: dividing a nested number by the constant 2211840 squares it
@@ -209,6 +224,15 @@ Next == UNCHANGED c
 Spec == Init /\ [][Next]_c
 
 FiniteWhereSmooth == CaseOK(c)
+\* the code before the repair "fix: tanh returned NaN once cosh overflows" (self.sinh() / self.cosh()); TLC reports
+\* every "saturate" case of tanh as a counterexample of this invariant (inf * 0 = NaN in the quotient rule). It is
+\* kept as documentation and is not part of any configuration.
+OldTanhFinite ==
+    c.k = "saturate" /\ c.fn = "tanh" =>
+        LET xq == GenQ(c.ty, IF c.sign > 0 THEN Huge ELSE QNeg(Huge), 3)
+            x == ToX(c.ty, xq)
+            res == BX!DivB(c.ty, BX!ElemB(c.ty, "sinh", x), BX!ElemB(c.ty, "cosh", x))
+        IN  \A mm \in DOMAIN JetX(c.ty, res) : XFinite(JetX(c.ty, res)[mm])
 \* the series the harness uses as oracle next to zero (one line per function)
 SeriesFns == {"sph_j0", "sph_j1", "sph_j2", "bessel_j0", "bessel_j1", "bessel_j2"}
 ExportSeries ==
